@@ -856,9 +856,18 @@ impl World {
             a.lamports = if dynamic { min_balance(148) + *base.array_rent.get(&st).unwrap_or(&0) as u64 * TICK_RENT } else { min_balance(a.data.len()) };
             fx.bank.accts.insert(key, a);
         }
+        // mode 6: a stranger signs and pays from / receives into token accounts HE owns (so the token program has no
+        // reason to refuse the transfer: only the position-authority check stands between him and the position)
+        if auth_mode == 6 {
+            for key in [fx.trader_a, fx.trader_b] {
+                let mut a = fx.bank.get(&key);
+                a.data[32..64].copy_from_slice(stranger.as_ref());
+                fx.bank.accts.insert(key, a);
+            }
+        }
         let bank0 = fx.bank.clone();
         let (ta_l, ta_u) = (crate::fixture::tick_array_pda(&fx.pool, ls), crate::fixture::tick_array_pda(&fx.pool, us));
-        let signer_key = if auth_mode == 1 || auth_mode == 3 { stranger } else { fx.trader };
+        let signer_key = if auth_mode == 1 || auth_mode == 3 || auth_mode == 6 { stranger } else { fx.trader };
         let (mut metas, data): (Vec<Meta>, Vec<u8>) = if ver == 2 {
             let acc = ::whirlpool::accounts::ModifyLiquidityV2 {
                 whirlpool: fx.pool,
@@ -956,7 +965,7 @@ impl World {
             }
             Ok(()) => {
                 if auth_mode != 0 {
-                    viols.push(format!("C04/C15 the liquidity instruction succeeded although {} (mode {})", match auth_mode { 3 => "a stranger holding one token of ANOTHER mint signed as the position's authority", 4 => "the position belongs to another pool than the one named", 5 => "the signer's account of the position mint holds no token", _ => "the position owner did not sign" }, auth_mode));
+                    viols.push(format!("C04/C15 the liquidity instruction succeeded although {} (mode {})", match auth_mode { 3 => "a stranger holding one token of ANOTHER mint signed as the position's authority", 4 => "the position belongs to another pool than the one named", 5 => "the signer's account of the position mint holds no token", 6 => "a stranger signed, paying from token accounts of his own", _ => "the position owner did not sign" }, auth_mode));
                 }
                 if let Some(pe) = by.as_ref().and_then(|b| b.pre_err.clone()) {
                     viols.push(format!("C08 increase_liquidity_by_token_amounts_v2 succeeded although it must fail with {}", pe));
@@ -1916,8 +1925,17 @@ impl World {
             a.lamports = if dynamic { min_balance(148) + *base.array_rent.get(st).unwrap_or(&0) as u64 * TICK_RENT } else { min_balance(a.data.len()) };
             fx.bank.accts.insert(key, a);
         }
+        // mode 6: a stranger signs and pays from / receives into token accounts HE owns (so the token program has no
+        // reason to refuse the transfer: only the position-authority check stands between him and the position)
+        if auth_mode == 6 {
+            for key in [fx.trader_a, fx.trader_b] {
+                let mut a = fx.bank.get(&key);
+                a.data[32..64].copy_from_slice(stranger.as_ref());
+                fx.bank.accts.insert(key, a);
+            }
+        }
         let bank0 = fx.bank.clone();
-        let signer_key = if auth_mode == 1 || auth_mode == 3 { stranger } else { fx.trader };
+        let signer_key = if auth_mode == 1 || auth_mode == 3 || auth_mode == 6 { stranger } else { fx.trader };
         let acc = ::whirlpool::accounts::RepositionLiquidityV2 {
             whirlpool: fx.pool,
             token_program_a: fx.prog_a,
@@ -2000,7 +2018,7 @@ impl World {
             }
             Ok(()) => {
                 if auth_mode != 0 {
-                    viols.push(format!("C04/C15 reposition succeeded although {} (mode {})", match auth_mode { 3 => "a stranger holding one token of ANOTHER mint signed as the position's authority", 4 => "the position belongs to another pool than the one named", 5 => "the signer's account of the position mint holds no token", _ => "the position owner did not sign" }, auth_mode));
+                    viols.push(format!("C04/C15 reposition succeeded although {} (mode {})", match auth_mode { 3 => "a stranger holding one token of ANOTHER mint signed as the position's authority", 4 => "the position belongs to another pool than the one named", 5 => "the signer's account of the position mint holds no token", 6 => "a stranger signed, paying from token accounts of his own", _ => "the position owner did not sign" }, auth_mode));
                 }
                 match (&ref_full, &expect) {
                     (Ok((da, db, ia, ib)), Some(((ta, fa, from_a), (tb, fb, from_b)))) => {
